@@ -178,7 +178,10 @@ impl AsyncFileSystem for AsyncOverlayFS {
         }
         match self.read_path(path).await {
             Ok(p) => p.exists().await,
-            Err(_) => Ok(false),
+            Err(err) => match err.kind() {
+                VfsErrorKind::FileNotFound => Ok(false),
+                _ => Err(err),
+            },
         }
     }
 
